@@ -962,6 +962,16 @@ func (c *Canon) Footprint(f *F) (vars map[types.Object]bool, paths map[string]bo
 			switch x := n.(type) {
 			case *ast.FuncLit:
 				return false
+			case *ast.CallExpr:
+				// an expression helper reads what the expression it returns reads
+				if ie, restore := c.inlineCall(x); ie != nil {
+					expr(ie, depth+1)
+					restore()
+					for _, a := range x.Args {
+						expr(a, depth+1)
+					}
+					return false
+				}
 			case *ast.SelectorExpr:
 				if sel := c.Info.Selections[x]; sel != nil && sel.Kind() == types.FieldVal {
 					paths[c.Term(x)] = true
@@ -972,6 +982,13 @@ func (c *Canon) Footprint(f *F) (vars map[types.Object]bool, paths map[string]bo
 				o := c.Info.ObjectOf(x)
 				v, ok := o.(*types.Var)
 				if !ok || v.IsField() {
+					return true
+				}
+				if arg, bound := c.env[o]; bound {
+					// a parameter of the expression helper being read: what the caller's argument reads
+					delete(c.env, o)
+					expr(arg, depth+1)
+					c.env[o] = arg
 					return true
 				}
 				if o.Pkg() != nil && o.Parent() == o.Pkg().Scope() {
@@ -1371,12 +1388,22 @@ func replaceIdent(text, name, with string) string {
 func (c *Canon) MethodReceivers(f *F) map[string]map[string]bool {
 	out := map[string]map[string]bool{}
 	var walk func(f *F)
-	visit := func(e ast.Node) {
+	var visit func(e ast.Node)
+	visit = func(e ast.Node) {
 		ast.Inspect(e, func(n ast.Node) bool {
 			switch x := n.(type) {
 			case *ast.FuncLit:
 				return false
 			case *ast.CallExpr:
+				// an expression helper observes what the expression it returns observes, not "the object through a method"
+				if ie, restore := c.inlineCall(x); ie != nil {
+					visit(ie)
+					restore()
+					for _, a := range x.Args {
+						visit(a)
+					}
+					return false
+				}
 				if sel, ok := ast.Unparen(x.Fun).(*ast.SelectorExpr); ok {
 					if s := c.Info.Selections[sel]; s != nil && s.Kind() == types.MethodVal {
 						t := c.Term(sel.X)
